@@ -273,12 +273,15 @@ def into_owned_maps():
                     found = True
                     variant, pat = ma.group(1), ma.group(2) or ""
                     bound = re.findall(r"\w+", pat)
+                    positional = pat.startswith("(")
+                    def posmap(srcs, bound=bound, positional=positional):
+                        return [str(bound.index(x)) if positional and x in bound else x for x in srcs]
                     rest = arms[ma.end():]
                     mt = re.match(r"(?:\w+::)?(\w+)\s*(\{|\()", rest)
                     if mt and mt.group(2) == "{":
                         e = matching_brace(rest, mt.end() - 1)
                         for tgt, srcs in parse_struct_literal(rest[mt.end(): e], bound):
-                            rows.append((ty, variant, tgt, srcs))
+                            rows.append((ty, variant, mt.group(1), tgt, posmap(srcs)))
                         k = ma.end() + e + 1
                     elif mt and mt.group(2) == "(":
                         depth, e = 0, None
@@ -292,13 +295,13 @@ def into_owned_maps():
                                     break
                         args = split_top(rest[mt.end(): e])
                         for i, a in enumerate(args):
-                            rows.append((ty, variant, str(i), field_sources(a, bound)))
+                            rows.append((ty, variant, mt.group(1), str(i), posmap(field_sources(a, bound))))
                         k = ma.end() + e + 1
                     else:
                         mu = re.match(r"(?:\w+::)?(\w+)\s*,", rest)
                         if not mu:
                             raise TranslatorError("unrecognised into_owned arm in %s: %s" % (ty, rest[:60]))
-                        rows.append((ty, variant, "", []))
+                        rows.append((ty, variant, mu.group(1), "", []))
                         k = ma.end() + mu.end()
                     mc = re.compile(r"\s*,?\s*").match(arms, k)
                     k = mc.end()
@@ -309,13 +312,17 @@ def into_owned_maps():
             mt = re.search(r"(\w+)\(", body)
             if ms and (not mt or ms.start() <= mt.start()):
                 e = matching_brace(body, ms.end() - 1)
+                if ms.group(1) != ty:
+                    raise TranslatorError("into_owned of %s builds a %s" % (ty, ms.group(1)))
                 for tgt, srcs in parse_struct_literal(body[ms.end(): e], []):
-                    rows.append((ty, "", tgt, srcs))
+                    rows.append((ty, "", "", tgt, srcs))
             elif mt:
                 inner = body[mt.end(): body.rfind(")")]
+                if mt.group(1) != ty:
+                    raise TranslatorError("into_owned of %s builds a %s" % (ty, mt.group(1)))
                 for i, a in enumerate(split_top(inner)):
                     srcs = re.findall(r"self\s*\.\s*(\w+)", a)
-                    rows.append((ty, "", str(i), srcs))
+                    rows.append((ty, "", "", str(i), srcs))
             else:
                 raise TranslatorError("unrecognised into_owned body for " + ty)
     return rows
@@ -441,15 +448,15 @@ def generate():
     for (ty, fn) in sorted(rvs):
         L.append("Definition rv_%s_%s : N := %d." % (ty, "req" if fn == "required_version" else "intro", rvs[(ty, fn)]))
     L.append("")
-    L.append("(* into_owned field mappings: (type, variant, target field, source fields) *)")
+    L.append("(* into_owned field mappings: (type, source variant, built variant, target field, source fields) *)")
     rows = []
-    for ty, variant, tgt, srcs in owned:
-        rows.append("(%s, %s, %s, [%s])" % (coq_str(ty), coq_str(variant), coq_str(tgt), "; ".join(coq_str(s) for s in srcs)))
-    L.append("Definition into_owned_table : list (string * string * string * list string) :=\n  [ " + ";\n    ".join(rows) + " ].")
+    for ty, variant, dvariant, tgt, srcs in owned:
+        rows.append("(%s, %s, %s, %s, [%s])" % (coq_str(ty), coq_str(variant), coq_str(dvariant), coq_str(tgt), "; ".join(coq_str(s) for s in srcs)))
+    L.append("Definition into_owned_table : list (string * string * string * string * list string) :=\n  [ " + ";\n    ".join(rows) + " ].")
     L.append("")
     L.append("(* declared fields of the types that have an into_owned: (type, variant, field) *)")
     rows = []
-    owned_types = sorted(set(ty for ty, _, _, _ in owned))
+    owned_types = sorted(set(o[0] for o in owned))
     for ty in owned_types:
         if ty in sfields:
             for f in sfields[ty]:
